@@ -9,8 +9,10 @@ Shared memory (one `Store`):
   * `disk` / `loose`      the objects directory: index files `(file id, objects)` and loose objects.
                           It changes only by the environment events, which follow git's rule: a new
                           pack / multi-pack index appears complete (`envAdd`), an index file or a
-                          loose object disappears only if every object it holds is in another index
-                          file that is present (`envRemove`, `envRemoveLoose`).
+                          loose object disappears only if every object it holds is still available: an
+                          index file may go when each of its objects is in another index file that is
+                          present or loose (`envRemove`), a loose object when it is in an index file
+                          that is present (`envRemoveLoose`).
   * `slots k`             `files[k] : MutableIndexAndPack` = `generation` (AtomicU32), `files`
                           (ArcSwap<Option<IndexAndPacks>>), and whether the consolidating thread is
                           inside its `slot.write` critical section (`wlock`).
@@ -249,7 +251,7 @@ def step (s : Sys) : Ev → Option Sys
   | Ev.envAdd file objs =>
     if onDisk s.disk file then none else some { s with disk := (file, objs) :: s.disk }
   | Ev.envRemove file =>
-    if onDisk s.disk file && (objsOf s.disk file).all (heldElsewhere s.disk (some file)) then
+    if onDisk s.disk file && (objsOf s.disk file).all (fun o => heldElsewhere s.disk (some file) o || s.loose.contains o) then
       some { s with disk := s.disk.filter fun d => d.1 != file }
     else none
   | Ev.envAddLoose o => some { s with loose := o :: s.loose }
